@@ -137,7 +137,11 @@ RECURSIVE CB(_, _, _, _), Do(_, _, _, _), Disc(_, _, _), Reco(_, _), Attach(_, _
 \* callback c of session s: logged, then the armed action, if it is this one
 CB(w, s, c, x) ==
    LET w1 == Emit(w, s, c, x)
-   IN IF w1.arm.on = 1 /\ w1.arm.s = s /\ w1.arm.cb = c THEN Do([w1 EXCEPT !.arm = NoArm], s, w1.arm.act, w1.arm.t) ELSE w1
+   IN IF w1.arm.on = 1 /\ w1.arm.s = s /\ w1.arm.cb = c
+      THEN LET w2 == Do([w1 EXCEPT !.arm = NoArm], s, w1.arm.act, w1.arm.t)
+           \* (ghost) what a call made from inside a callback promised is not judged at the end of the step: the step goes on after it
+           IN [w2 EXCEPT !.note = IF @.k \in {"repl", "ccc"} THEN [@ EXCEPT !.clean = FALSE] ELSE @]
+      ELSE w1
 
 \* AbstractReflectSession::EndSession(): "Marks this session for immediate termination and removal from the server."
 \* ReflectServer::EndSession(): "Causes the ReflectServer to place the session in the "lame duck sessions list" ..."
@@ -199,9 +203,9 @@ Repl(w, old, okNew) ==
        clean == ra.w.arm = w.arm
        nt(ok) == [k |-> "repl", old |-> old, new |-> n, ok |-> ok, g |-> before.g, c |-> CnOf(w, old), before |-> before, wasduck |-> old \in Range(w.ducks), clean |-> clean]
    IN IF ra.ok = 1
-      THEN LET w1 == [ra.w EXCEPT !.ses[old].g = 0]                            \* "gateway now belongs to newSession"
+      THEN LET w1 == DropGw([ra.w EXCEPT !.ses[old].g = 0], ra.w.ses[old].g)   \* "gateway now belongs to newSession" (a gateway the old session got meanwhile goes)
            IN [(IF Dev("ReplaceKeepsOld") THEN w1 ELSE EndS(w1, old)) EXCEPT !.note = nt(1)]
-      ELSE LET w1 == [ra.w EXCEPT !.ses[n].g = 0, !.ses[old].g = IF Dev("ReplaceFailTouchesOld") THEN 0 ELSE @]     \* "Oops, rollback changes and error out"
+      ELSE LET w1 == DropGw([ra.w EXCEPT !.ses[n].g = 0, !.ses[old].g = IF Dev("ReplaceFailTouchesOld") THEN 0 ELSE @], ra.w.ses[n].g)     \* "Oops, rollback changes and error out"
            IN [Release(w1, n) EXCEPT !.note = nt(0)]
 
 \* AddNewSession(ref) without a socket, from inside a callback or by the driver: a session without gateway
